@@ -157,7 +157,7 @@ def run(ctx):
     for i, c in enumerate(cases):
         c["exec"] = (pid in ("C02", "C07")) and (i < nfixed or i - nfixed < bud["n_exec"])
         c["targets"] = TARGETS if pid == "C15" else ["raw"]
-        c["decl_first"] = (i % 3 == 1)
+        c["decl_first"] = {1: True, 2: "cpu"}.get(i % 3, False)
     sh = (len(cases) + bud["shards"] - 1) // bud["shards"]
     results = []
     for r in run_impl_parallel(ctx, "capi", [{"cases": cases[i:i + sh]} for i in range(0, len(cases), sh)], timeout=2400):
